@@ -206,3 +206,10 @@ prop("C16",
      technique="property-based testing (rapid) over harness-controlled schedules (logical gates instead of sleeps)",
      rule="Non-trivial = cancellation at an interior resolver (0 < k < n) or racing completion; distinct by case hash.",
      runs=[dict(test="^TestC16$", race=True, quick=dict(checks=400), thorough=dict(checks=4000, shards=16, timeout=3000))])
+
+prop("C15",
+     level_text="history search (rapid) with the harness as producer and consumer: the subscription source is an unbuffered channel, so emit / read / cancel / closeSource happen exactly in the drawn order; payloads make field resolution succeed, fail, or fail in a non-null position; sources that are a stream, a single value, nil, an error, a panic with an error or with a string; requests that fail to parse or validate; consumers that keep or stop reading after cancellation. Oracle = the i-th result equals the harness's own execution of the selection for the i-th event (data JSON and error count), one per event and in order; the channel closes after the source closes or the context is cancelled; failing requests deliver exactly one error result and close; afterwards no goroutine with an ExecuteSubscription frame survives",
+     note="an emit is only attempted when the library is idle (otherwise the producer itself would block), so stalls are modelled as 'result pending, consumer not reading'; after cancellation a result may be the correct next one or carry only the context error; multi-root subscriptions are not generated (the edition has no single-root rule and the port picks a root by map order); built with -race",
+     technique="property-based testing (rapid): model-based history generation with harness-owned hand-offs and a goroutine census",
+     rule="Non-trivial = an event whose execution fails, or a cancellation while a result is pending; distinct by case hash.",
+     runs=[dict(test="^TestC15$", race=True, quick=dict(checks=1200), thorough=dict(checks=12000, shards=16, timeout=3000))])
